@@ -476,6 +476,20 @@ def rule_device_counterparts(ctx):
     it = Interp(pkg, assumptions={"BW": None, "input.noise": "none", "input.n_pol": 2}, param_classes={"input": "optical_signal"})
     it.run(fe)
     pa = it.final_env.get("P_ase") if it.final_env else None
+    if not isinstance(pa, Form):
+        # by role: the ASE rows are sigma * randn(4, N) with sigma = sqrt(P_ase/4)
+        for rr in it.calls:
+            if rr.callee in ("numpy.random.randn", "numpy.random.standard_normal", "numpy.random.normal") and isinstance(rr.result, Form):
+                ra = rr.result.single_atom()
+                for (f_, stmt_, name_, val_, conds_, depth_) in it.assign_log:
+                    if isinstance(val_, Form) and len(val_.terms) == 1 and ra is not None:
+                        (mono, coef), = val_.terms.items()
+                        if any(a_ == ra and e_ == 1 for a_, e_ in mono):
+                            sigma = val_ / Form.atom(ra)
+                            pa = 4 * sigma * sigma
+                            break
+                if isinstance(pa, Form):
+                    break
     if isinstance(pa, Form):
         ren2 = {"gv.fs": S("BW_opt"), "gv.f0": CC / S("wavelength")}
         got = pa.subst(lambda a: ren2.get(a[1]) if a[0] == "sym" else None)
